@@ -523,7 +523,28 @@ func ResultAlgebra(p *core.Prog, r *core.Report) {
 	}
 
 	// ---- queries -----------------------------------------------------------------
-	for _, q := range []string{"IsValid", "HasErrors", "HasWarnings", "HasErrorsOrWarnings"} {
+	// the queries: every exported method of *Result that takes nothing and answers something
+	queries := []string{"IsValid", "HasErrors", "HasWarnings", "HasErrorsOrWarnings"}
+	for _, f := range p.Funcs {
+		if f.Parent() != nil || f.Signature.Recv() == nil || !isResultPtr(f.Signature.Recv().Type()) || f.Object() == nil || !f.Object().Exported() {
+			continue
+		}
+		if f.Signature.Params().Len() != 0 || f.Signature.Results().Len() == 0 {
+			continue
+		}
+		known := false
+		for _, q := range queries {
+			if q == core.BaseName(f) {
+				known = true
+			}
+		}
+		if !known {
+			queries = append(queries, core.BaseName(f))
+		}
+	}
+	r.Count("result_queries", len(queries))
+	r.Floor("result_queries", 8)
+	for _, q := range queries {
 		f := p.Func("(*Result)." + q)
 		if f == nil {
 			r.Unk(rule, q+":present", "-", "query not found")
